@@ -5,7 +5,7 @@ import time
 
 from . import core, build
 
-REF_MODULES = ["si", "grammar", "ratelaw", "cme", "nullspace", "sampler", "layout", "cg"]
+REF_MODULES = ["si", "grammar", "ratelaw", "cme", "nullspace", "sampler", "layout", "cg", "physical", "reaction", "arith", "defaults"]
 
 
 def main():
